@@ -37,6 +37,7 @@ func main() {
 			"porcupine checker timeout (60 s per history) is reported as inconclusive, never as a violation",
 		},
 		RaceFiles:  []string{"/har/"},
+		HangDetect: true,
 		Exhaustive: func(string) bool { return true },
 		Plan: func(tier string, seed int64) []vh.Batch {
 			var bs []vh.Batch
@@ -121,6 +122,8 @@ type seqRunner struct {
 	viaHTTP bool
 	// conservation
 	exported map[string]bool // id#reqMark returned by ExportAndReset
+	// results handed out earlier must not change afterwards (a caller may keep them)
+	retained []retainedHAR
 }
 
 func newReq(id string, mark int) *http.Request {
@@ -139,6 +142,44 @@ func newRes(req *http.Request, mark int) *http.Response {
 		Body:    http.NoBody,
 		Request: req,
 	}
+}
+
+type retainedHAR struct {
+	h    *har.HAR
+	was  string
+	what string
+}
+
+func obsString(obs []obsEntry) string {
+	var sb strings.Builder
+	for _, o := range obs {
+		fmt.Fprintf(&sb, "%s#%d/%v#%d,", o.ID, o.ReqMark, o.HasRes, o.ResMark)
+	}
+	return sb.String()
+}
+
+// recheckRetained re-reads results returned by earlier calls.
+func (s *seqRunner) recheckRetained() string {
+	for _, rt := range s.retained {
+		obs, err := observe(rt.h)
+		if err != nil {
+			return rt.what + " result became unreadable: " + err.Error()
+		}
+		if now := obsString(obs); now != rt.was {
+			return fmt.Sprintf("the result an earlier %s returned changed afterwards: was [%s], now [%s]", rt.what, rt.was, now)
+		}
+	}
+	return ""
+}
+
+func (s *seqRunner) retain(h *har.HAR, obs []obsEntry, what string) {
+	if s.viaHTTP || len(obs) == 0 {
+		return // decoded copies cannot alias the logger
+	}
+	if len(s.retained) >= 6 {
+		s.retained = s.retained[1:]
+	}
+	s.retained = append(s.retained, retainedHAR{h, obsString(obs), what})
 }
 
 type obsEntry struct {
@@ -316,6 +357,7 @@ func (s *seqRunner) apply(o op) (clause, what string) {
 		if err != nil {
 			return "export-and-reset", err.Error()
 		}
+		s.retain(h, obs, "ExportAndReset")
 		s.r.Class("shape:" + shape(s.m.list))
 		var done, keep []*mEntry
 		for _, e := range s.m.list {
@@ -358,6 +400,12 @@ func (s *seqRunner) apply(o op) (clause, what string) {
 	}
 	if w := compare(obs, s.m.list, false); w != "" {
 		return "export", "Export after " + o.String() + ": " + w
+	}
+	if o.K == opEAR || o.K == opReset {
+		s.retain(h, obs, "Export")
+		if w := s.recheckRetained(); w != "" {
+			return "result-stable", w
+		}
 	}
 	return "", ""
 }
